@@ -288,15 +288,21 @@ CellVerdict(rec) ==
       \* the engine may have some of the listed defects repaired: an aspect is explained if SOME subset of the
       \* deviations relevant to this cell predicts it (all of them is tried first)
       rel == {d \in dv : CellAsIs(c, {d}) # ref \/ CellAsIs(c, dv) # CellAsIs(c, dv \ {d})}
+      \* subsets of the relevant deviations under which EVERY judged aspect is the reference's or the as-is value
+      whole == {S \in SUBSET rel : LET x == CellAsIs(c, S) IN
+                  \A j \in 1..Len(judged) : LET a == judged[j] act == ActOf(rec, a) IN
+                     \/ (a \in always \/ ref["out"][1] = "ok") /\ act = ref[a][1]
+                     \/ (a \in always \/ x["out"][1] = "ok") /\ act = x[a][1]}
       one(a) == LET act == ActOf(rec, a)
                     refok == (a \in always \/ ref["out"][1] = "ok") /\ act = ref[a][1]
                     okUnder(S) == LET x == CellAsIs(c, S)
                                   IN (a \in always \/ x["out"][1] = "ok") /\ act = x[a][1]
                                      /\ (x[a][2] # "" \/ x["out"][2] # "")
                     devUnder(S) == LET x == CellAsIs(c, S) IN IF x[a][2] # "" THEN x[a][2] ELSE x["out"][2]
-                    good == {S \in SUBSET rel : okUnder(S)}
+                    good0 == {S \in SUBSET rel : okUnder(S)}
+                    good == IF good0 \cap whole # {} THEN good0 \cap whole ELSE good0   \* prefer a set that explains the whole cell
                 IN IF refok THEN [aspect |-> a, v |-> "pass", dev |-> "", exp |-> ref[a][1], act |-> act]
-                   ELSE IF okUnder(rel) THEN [aspect |-> a, v |-> "known", dev |-> devUnder(rel), exp |-> ref[a][1], act |-> act]
+                   ELSE IF okUnder(rel) /\ rel \in good THEN [aspect |-> a, v |-> "known", dev |-> devUnder(rel), exp |-> ref[a][1], act |-> act]
                    ELSE IF good # {} THEN [aspect |-> a, v |-> "known", dev |-> devUnder(CHOOSE S \in good : TRUE), exp |-> ref[a][1], act |-> act]
                    ELSE [aspect |-> a, v |-> "violation", dev |-> "", exp |-> ref[a][1], act |-> act]
       all == [j \in 1..Len(judged) |-> one(judged[j])]
